@@ -60,6 +60,24 @@ def type_admits(inst, schema: dict) -> bool:
     return True
 
 
+def coalesce(events: list, limit: int = 3000) -> list:
+    """Very long traces (arrays of tens of thousands of elements) are coalesced before validation:
+    adjacent write calls are merged (sound: the sink invariant is about the concatenation, chunking is
+    free), adjacent exact reads likewise.  Short traces are validated call by call."""
+    if len(events) <= limit:
+        return events
+    out: list = []
+    for e in events:
+        if out and e["op"] == out[-1]["op"] == "w" and out[-1]["n"] < 60000 and "raw" in out[-1]["d"] and "raw" in e["d"]:
+            out[-1] = {"op": "w", "n": out[-1]["n"] + e["n"], "d": {"raw": out[-1]["d"]["raw"] + e["d"]["raw"]}}
+        elif (out and e["op"] == out[-1]["op"] == "r" and e["n"] >= 0 and out[-1]["n"] >= 0
+              and e["got"] == e["n"] and out[-1]["got"] == out[-1]["n"] and out[-1]["n"] < 60000):
+            out[-1] = {"op": "r", "n": out[-1]["n"] + e["n"], "got": out[-1]["got"] + e["got"]}
+        else:
+            out.append(dict(e))
+    return out
+
+
 def encode_recorded(cls, inst):
     from kio.serial import entity_writer
     sink = RecSink()
@@ -103,13 +121,13 @@ def wr_case(cid: str, cls, schema: dict, aval: dict, rng: random.Random) -> dict
     post = bytes(rng.randrange(256) for _ in range(rng.choice([0, 1, 3, 40])))
     case = {
         "id": cid, "mode": "wr", "sid": schema["sid"], "value": aval, "var": CANON_VAR,
-        "input": {"raw": []}, "wev": RecSink.events(sink), "wout": outcome_name(wexc),
+        "input": {"raw": []}, "wev": coalesce(RecSink.events(sink)), "wout": outcome_name(wexc),
         "rev": [], "rout": "skipped", "rval": project.NULL, "req": False,
     }
     if wexc is None:
         src, result, rexc, consumed = decode_recorded(cls, data, pre, post,
                                                       budget=4 * len(data) + 200)
-        case["rev"] = RecSource.events(src)
+        case["rev"] = coalesce(RecSource.events(src))
         case["rout"] = outcome_name(rexc)
         if rexc is None:
             case["rval"] = project.project_entity(result, schema)
@@ -132,13 +150,13 @@ def rw_case(cid: str, cls, schema: dict, aval: dict, var: dict, data: bytes,
     case = {
         "id": cid, "mode": "rw", "sid": schema["sid"], "value": aval, "var": var,
         "input": project.babs(data), "wev": [], "wout": "skipped",
-        "rev": RecSource.events(src), "rout": outcome_name(rexc),
+        "rev": coalesce(RecSource.events(src)), "rout": outcome_name(rexc),
         "rval": project.NULL, "req": True,
     }
     if rexc is None:
         case["rval"] = project.project_entity(result, schema)
         sink, wexc = encode_recorded(cls, result)
-        case["wev"] = RecSink.events(sink)
+        case["wev"] = coalesce(RecSink.events(sink))
         case["wout"] = outcome_name(wexc)
     else:
         case["rerr"] = "".join(traceback.format_exception_only(type(rexc), rexc))[-300:]
